@@ -103,6 +103,21 @@ def grid_cases():
         if f in ("int", "float"):
             items.append(["sm", ["fn", "hsum", cols, {}]])
         yield f"3ary:{f}", {"tables": [tb], "steps": [S0, {"out": "v1", "verb": "mutate", "in": "v0", "items": items}], "result": "v1"}, len(rows) * len(items)
+    # five-argument forms over a small value grid (argument lists of four and more take a different path on SQLite)
+    small = {"int": [None, -3, 0, 7], "float": [None, -1.5, 0.0, 2.25], "str": [None, "", "a", "B"], "bool": [None, True, False]}
+    for f in ("int", "float", "str", "bool"):
+        rows = list(itertools.product(small[f], repeat=5))
+        tb = _table([f] * 5, rows)
+        cols = [["col", {"c": f"c{k}"}] for k in range(5)]
+        if f == "bool":
+            items = [["an", ["fn", "hany", cols, {}]], ["al", ["fn", "hall", cols, {}]], ["co", ["fn", "coalesce", cols, {}]],
+                     ["an4", ["fn", "hany", cols[1:], {}]], ["al4", ["fn", "hall", cols[:4], {}]]]
+        else:
+            items = [["mx", ["fn", "hmax", cols, {}]], ["mn", ["fn", "hmin", cols, {}]], ["co", ["fn", "coalesce", cols, {}]],
+                     ["isin", ["fn", "is_in", cols, {}]], ["mx4", ["fn", "hmax", cols[:4], {}]], ["mn4", ["fn", "hmin", cols[1:], {}]]]
+            if f in ("int", "float"):
+                items += [["sm", ["fn", "hsum", cols, {}]], ["sm4", ["fn", "hsum", cols[:4], {}]]]
+        yield f"5ary:{f}", {"tables": [tb], "steps": [S0, {"out": "v1", "verb": "mutate", "in": "v0", "items": items}], "result": "v1"}, len(rows) * len(items)
     rows = list(itertools.product(GRID["bool"], repeat=3))
     tb = _table(["bool"] * 3, rows)
     cols = [["col", {"c": f"c{k}"}] for k in range(3)]
